@@ -824,6 +824,7 @@ func (d *Data) SplitLabels(v dvid.VersionID, fromLabel uint64, r io.ReadCloser, 
 	// in each block, and either modify header or rewrite the voxel labels.  Activate downres for affected
 	// blocks.
 	downresMut := downres.NewMutation(d, v, mutID)
+	defer downresMut.Abort() // releases the scales if we return before Execute
 	if err = d.splitPass2(ctx, downresMut, idx, affectedBlocks, svsplit.Splits, splitmap, blockSplits); err != nil {
 		return
 	}
@@ -1019,6 +1020,7 @@ func (d *Data) SplitSupervoxel(v dvid.VersionID, svlabel, splitlabel, remainlabe
 	if downscale {
 		downresMut = downres.NewMutation(d, v, mutID)
 	}
+	defer downresMut.Abort() // releases the scales if we return before Execute
 
 	var splitblks dvid.IZYXSlice
 	if splitblks, err = d.splitSupervoxelIndex(v, info, op, idx); err != nil {
